@@ -13,8 +13,8 @@ RULE = ('Hypothesis-generated world plans tuned for concurrency and stale replie
         '("<c i>" + text incl. non-ASCII and empty suffix) on a multi-method interface (echo / risky / put(struct) / names) or '
         'the generated Hello interface, 1-3 endpoints, Thrift stack with pool max_watermark 1-2 (connections are reused; '
         'requests queue) and ThriftMux stack (many calls in flight on one connection, replies reordered by drawn delays, '
-        'optional reply contexts), timeouts shorter than some replies so that stale replies exist, server kill / close events '
-        'between calls. Oracle: every call that returns a value returns the echo "<port>|<method>|<arg>" computed by a server '
+        'optional reply contexts), timeouts shorter than some replies so that stale replies exist, writes that block part-way '
+        'for about one timeout (serial), server kill / close events between calls. Oracle: every call that returns a value returns the echo "<port>|<method>|<arg>" computed by a server '
         'for exactly its own method and argument; every (method, argument) a server decoded belongs to an issued call, no call '
         'is decoded twice, and the decoded argument equals what the caller passed. Non-trivial = >= 2 calls in flight on one '
         'endpoint at once, or a reply delivered on a connection after its call had timed out. distinct = distinct non-trivial plans.')
@@ -44,7 +44,12 @@ def plans(draw):
   for p in ports:
     reqs = draw(st.lists(st.tuples(st.sampled_from(kinds), d).map(lambda t: [t[0], t[1]] + (['boom'] if t[0] == 'error' else [])), max_size=12))
     tl = draw(st.lists(st.tuples(st.integers(0, 3 * T), st.sampled_from(['kill', 'close'])).map(list), max_size=1))
-    servers[str(p)] = {'connect': [], 'requests': reqs, 'timeline': tl,
+    stall = None
+    if stack == 'thrift' and draw(st.sampled_from([False, False, True])):
+      # a write that blocks part-way (full peer window) for about one timeout
+      stall = {'conn': draw(st.integers(0, 1)), 'send_index': draw(st.integers(0, 3)),
+               'cut': draw(st.sampled_from([1, 4, 10, 18, 30])), 'for_ms': draw(st.sampled_from([5, 15, 25, 45, 60, T + 10, 2 * T]))}
+    servers[str(p)] = {'connect': [], 'requests': reqs, 'timeline': tl, 'stall': stall,
                        'chunks': draw(st.one_of(st.none(), st.lists(st.integers(1, 9), min_size=1, max_size=4)))}
   ncalls = draw(st.integers(2, 12))
   methods = ['hi'] if iface == 'hello' else ['echo', 'echo', 'risky', 'put', 'names']
